@@ -1,7 +1,7 @@
 from propcfg.common import *
 
 CFG = {
-    "disabled": True,
+    "disabled": False,
     "props": "Props/C14.v",
     "corr": ["Corr/RobustCorr.v"],
     "engines": [("robust", [])],
